@@ -235,6 +235,15 @@ class Builder:
             return I.call_fn(MB + "::" + ("minimize" if obj[0] == "min" else "maximize"), [mb, self.to_expr(*self.build(obj[1], handles))])
         if order == "obj-first":
             mb = objective(mb)
+        if order == "obj-replaced" and md["obj"] is not None and handles:
+            # the last objective call is the objective: other ones made earlier (the opposite sense, a feasibility
+            # objective, an objective before a feasibility objective) leave nothing behind
+            first = handles[md["decl"][0][0]]
+            if md["obj"][0] == "sat":
+                mb = I.call_fn(MB + "::maximize", [mb, self.to_expr(first, XV)])
+            else:
+                mb = I.call_fn(MB + "::satisfy", [mb])
+                mb = I.call_fn(MB + "::" + ("maximize" if md["obj"][0] == "min" else "minimize"), [mb, self.to_expr(*self.build(md["obj"][1], handles))])
         if order == "with_all":
             mb = I.call_fn(MB + "::with_all", [mb, ListV(cons)])
         elif order == "with+with_all":
@@ -349,7 +358,9 @@ def check(F, R, Gm, tier="quick"):
         key = md["label"].replace(" ", "-")
         text = text_model(md)
         want = text_side(RT, text)
-        orders = ("obj-last", "obj-first", "with_all", "with+with_all") if (tier == "thorough" or k % 7 == 0) else (("obj-last", "with+with_all") if len(md["cons"]) >= 3 or k % 5 == 0 else ("obj-last",))
+        orders = ("obj-last", "obj-first", "with_all", "with+with_all", "obj-replaced") if (tier == "thorough" or k % 7 == 0) else (("obj-last", "with+with_all") if len(md["cons"]) >= 3 or k % 5 == 0 else ("obj-last",))
+        if md["obj"] is not None and (md["obj"][0] == "sat" or k % 4 == 1) and "obj-replaced" not in orders:
+            orders = orders + ("obj-replaced",)
         for order in orders:
             try:
                 mb = B.model(md, order)
